@@ -61,7 +61,7 @@ def drive(jobs, fn=_worker, procs=16):
 
 
 def plan(tier, rng, kinds):
-    n = 800 if tier == 'quick' else 8000
+    n = 700 if tier == 'quick' else 8000
     maxw, maxh = (8, 8) if tier == 'quick' else (12, 12)
     jobs = []
     for i in range(n):
@@ -124,7 +124,7 @@ def _row_sweep_cases(tier, rng=None):
                 cases.append((cells, ['del', x]))
     nexh = len(cases)
     if rng is not None:
-        for _ in range(1500 if tier == 'quick' else 20000):
+        for _ in range(800 if tier == 'quick' else 20000):
             cells = [tl.g_cellspec(rng) for _ in range(rng.randint(0, 4))]
             w = sum(c[0] for c in cells)
             x = rng.choice([0, 0, 1, w - 1, w, w + 1, w + 2, -1, -2, rng.randint(0, w + 1)])
